@@ -44,6 +44,38 @@ theorem fresh_wire_after_break (m : Mux) (id : Nat) (hs : m.slot = .live id) (hn
   refine ⟨trivial, by simp, ?_⟩
   intro h; injection h with h; omega
 
+/-- **after_close_errclosing.** Once the mux is closed, no completion of a dial that was in flight
+    (any number of them, in any order, mixed with failures and call results — a call on the dead
+    wire fails with ErrClosing, which `isBroken` excludes) brings a live wire back:
+    every later call gets the dead wire, i.e. ErrClosing. -/
+theorem closed_stays_closed (m : Mux) (evs : List (Nat ⊕ (Nat ⊕ Unit))) :
+    ((evs.foldl (fun (m : Mux) e => match e with
+        | .inl id => (m.install id).1
+        | .inr (.inl id) => m.fail id
+        | .inr (.inr _) => m.afterCall m.slot (decide (m.slot ≠ .dead))) m.close).pick).2 = .dead := by
+  have key : ∀ (m : Mux), m.slot = .dead →
+      (evs.foldl (fun (m : Mux) e => match e with
+        | .inl id => (m.install id).1
+        | .inr (.inl id) => m.fail id
+        | .inr (.inr _) => m.afterCall m.slot (decide (m.slot ≠ .dead))) m).slot = .dead := by
+    induction evs with
+    | nil => intro m h; exact h
+    | cons e es ih =>
+      intro m h
+      apply ih
+      cases e with
+      | inl id => simp [Mux.install, h]
+      | inr e' => cases e' with
+        | inl id => simp [Mux.fail, h]
+        | inr _ => simp [Mux.afterCall, h]
+  have := key m.close rfl
+  unfold Mux.pick
+  rw [this]
+
+/-- the unrepaired `Store(w)` resurrected a closed mux (witness of the repaired defect) -/
+theorem unconditional_store_resurrects :
+    ({ ({} : Mux).close with slot := .live 7 } : Mux).slot ≠ .dead := by decide
+
 /-- a healthy wire is kept -/
 theorem healthy_wire_kept (m : Mux) (id : Nat) (hs : m.slot = .live id) :
     (m.pick).2 = .live id ∧ ((m.pick).1.afterCall (.live id) false).slot = .live id := by
@@ -54,8 +86,9 @@ theorem healthy_wire_kept (m : Mux) (id : Nat) (hs : m.slot = .live id) :
 theorem teardown_shape_pinned :
     Rv.Gen.PipeShape.drainLoopsOnWaits = true ∧ Rv.Gen.PipeShape.drainClosesCacheAndSubs = true ∧
     Rv.Gen.PipeShape.rejectsByState_Do = true ∧ Rv.Gen.PipeShape.rejectsByState_DoMulti = true ∧
+    Rv.Gen.PipeShape.muxInstallsWithCAS = true ∧ Rv.Gen.PipeShape.muxCloseSwapsDead = true ∧
     Rv.Gen.PipeShape.isBroken = "{ return err != nil && err != ErrClosing && w.Error() != nil }" := by
-  refine ⟨rfl, rfl, rfl, rfl, rfl⟩
+  refine ⟨rfl, rfl, rfl, rfl, rfl, rfl, rfl⟩
 
 private def exD : Drain :=
   { why := Why.broken, rcnt := 0, wcnt := 1, closed := false, pending := [⟨7, true⟩, ⟨8, false⟩], out := [] }
